@@ -4,7 +4,7 @@
    IR/Flow.v); that these edge sets are the control flow of the edited listing, instruction by instruction, is decided on the
    implementation by the disassembly oracle of harness/c03.py (partial: see the manifest and DESIGN.md section 8). *)
 From Coq Require Import ZArith List Bool Arith.
-From GR Require Import Base.Result Adt.RetCache IR.State IR.Modify IR.Edit IR.Flow IR.FindingsGen.
+From GR Require Import Base.Result Adt.RetCache IR.State IR.Modify IR.Edit IR.Flow IR.CfgClosedInsert IR.FindingsGen.
 Import ListNotations.
 Open Scope Z_scope.
 
@@ -80,6 +80,22 @@ Example C03_nonvacuous :
   exists nb ft s', split_block ex_state 0%nat 1 = Ok (nb, ft, s') /\
     cfg s' = [mk_edge (NB nb) (NB 1%nat) (Some (ET_BRANCH, false, true)); mk_edge' (NB 0%nat) (NB nb) ET_FALLTHROUGH].
 Proof. eexists; eexists; eexists. split; vm_compute; reflexivity. Qed.
+
+(* ===== what insert() does to the CFG between the primitives, exactly =====
+   (insert() = guard, insert_split, insert_body, clean-up: C05_insert_is_its_steps.)  insert_body leaves the CFG that the return edges of
+   the patch's calls and the stitch produce, plus the patch's own edges -- nothing else is added or removed; the stitch redirects the head's
+   fallthrough (when the split gave it one) to the patch's first block and lets the patch's last block fall through to the tail when both
+   are code. *)
+Theorem C03_insert_body_edges : forall s b first last lastk end_block added_ft bi offset repl code p pcfg pprox,
+  cfg (insert_body s b first last lastk end_block added_ft bi offset repl code p pcfg pprox) =
+  let r := add_return_edges_for_patch_calls s pcfg in
+  fold_left (fun c e => cfg_add e c) (snd r) (cfg (insert_stitch (fst r) b first last lastk end_block added_ft)).
+Proof. exact insert_body_edges. Qed.
+Theorem C03_insert_stitch_edges : forall s b first last lastk end_block added_ft,
+  cfg (insert_stitch s b first last lastk end_block added_ft) =
+  let c := cfg (match added_ft with Some _ => update_fallthrough_target s b first | None => s end) in
+  if is_code s end_block && bkind_eqb lastk KCode then cfg_add (mk_edge' (NB last) (NB end_block) ET_FALLTHROUGH) c else c.
+Proof. exact insert_stitch_edges. Qed.
 
 (* ===== the recorded findings, as facts about the faithful model (witnesses: IR/FindingsGen.v, generated from corpus/C03) =====
    The property's statement "the CFG is the control flow of the edited listing" is FALSE of the model on these inputs; each was
